@@ -43,12 +43,27 @@ sets its final status explicitly.  (Outside it the code is NOT transparent, see 
 def infoDomain (stack : List LayerCfg) (s : Script) : Prop :=
   ¬ hasBuffer stack ∨ s.info = [] ∨ s.status.isSome = true
 
+/-- Domain of handler responses whose body a buffer relays: `bufferWriter.expectBody` holds for them (or they have no body).
+Outside it the Buffer *drops the body by design* (`C20_buffer_drops_body_kinds`): 204/304, `Content-Length: 0`, and a
+non-empty `Grpc-Status` other than "0". -/
+def bodyDomain (stack : List LayerCfg) (s : Script) : Prop :=
+  ¬ hasBuffer stack ∨ (scriptResp s).body = [] ∨ expectBody (scriptResp s).status s.headers = true
+
+theorem bodyDomain_keep {stack : List LayerCfg} {s : Script} (h : bodyDomain stack s) :
+    ¬ hasBuffer stack ∨ (scriptResp s).body = []
+      ∨ (expectBody (scriptResp s).status (scriptResp s).headers = true ∧ (s.status.isSome = false → (scriptResp s).status = 200)) := by
+  rcases h with h | h | h
+  · exact Or.inl h
+  · exact Or.inr (Or.inl h)
+  · refine Or.inr (Or.inr ⟨h, ?_⟩)
+    intro hn; cases hs : s.status <;> simp_all [scriptResp]
+
 /-- **Transparent.**  If every layer passes, the handler runs exactly once; the client receives the handler's status and
 body unchanged and its headers preceded only by the sticky cookies of the balancers in the stack (or, if the handler
 hijacked the connection, exactly what it wrote there); a hijack attempt succeeds; the handler's writer can flush through to
 the client unless a buffer is in the stack, and without a buffer a requested flush does reach the client. -/
 theorem C20_transparent (stack : List LayerCfg) (h : Req → Script) (req : Req)
-    (hp : ∀ l ∈ stack, passes l req (h req)) (hdom : infoDomain stack (h req)) :
+    (hp : ∀ l ∈ stack, passes l req (h req)) (hdom : infoDomain stack (h req)) (hbody : bodyDomain stack (h req)) :
     (serveStack stack h req).invoked = 1
     ∧ (serveStack stack h req).resp
         = (if (h req).hijack then scriptResp (h req) else decorate stack (scriptResp (h req)))
@@ -86,7 +101,7 @@ theorem C20_transparent (stack : List LayerCfg) (h : Req → Script) (req : Req)
       · exact Or.inl h1
     have hone : attemptsThrough stack (scriptResp (h req)).status = 1 :=
       attemptsThrough_one _ _ (fun l hl => (hp l hl).2.2)
-    rw [hs, hr, foldr_post_plain _ _ rfl (fun l hl => (hp l hl).2.1) hd]
+    rw [hs, hr, foldr_post_plain _ _ rfl (fun l hl => (hp l hl).2.1) hd (bodyDomain_keep hbody)]
     refine ⟨by simp [hone], by simp [hj'], by simp [hj'], ⟨_, rfl, hH, ?_⟩, ?_, ?_⟩
     · by_cases hb : hasBuffer stack
       · exact Or.inr hb
@@ -111,37 +126,48 @@ theorem C20_decorate_only_cookies (stack : List LayerCfg) (r : Resp) :
 response — and the handler is not invoked, whatever lies inside `L`. -/
 theorem C20_decisive_at (outer inner : List LayerCfg) (L : LayerCfg) (h : Req → Script) (req : Req)
     (hout : ∀ l ∈ outer, intervenes l req = false ∧ overflows l (interventionResp L).body.length = false)
-    (hL : intervenes L req = true) :
+    (hL : intervenes L req = true)
+    (hkeep : ¬ hasBuffer outer ∨ expectBody (interventionResp L).status (interventionResp L).headers = true) :
     serveStack (outer ++ L :: inner) h req = ⟨decorate outer (interventionResp L), 0, none, false, false, [], true⟩ := by
+  have hkeep' : ¬ hasBuffer outer ∨ (interventionResp L).body = []
+      ∨ (expectBody (interventionResp L).status (interventionResp L).headers = true ∧ (true = false → (interventionResp L).status = 200)) := by
+    rcases hkeep with h1 | h1
+    · exact Or.inl h1
+    · exact Or.inr (Or.inr ⟨h1, by intro hc; cases hc⟩)
   unfold serveStack
   rw [serve_append outer (L :: inner) h req Caps.real (fun l hl => (hout l hl).1)]
   simp only [serve, hL, if_true]
-  rw [foldr_post_plain _ _ rfl (fun l hl => (hout l hl).2) (Or.inl rfl)]
+  rw [foldr_post_plain _ _ rfl (fun l hl => (hout l hl).2) (Or.inl rfl) hkeep']
   simp [infosThrough_nil', explicitThrough_true]
 
 /-- **Decisive.**  Any stack containing an intervening layer: the outermost intervening layer answers, the handler is not invoked. -/
 theorem C20_decisive (stack : List LayerCfg) (h : Req → Script) (req : Req)
     (hex : ∃ l ∈ stack, intervenes l req = true)
-    (hlim : ∀ l ∈ stack, ∀ L ∈ stack, overflows l (interventionResp L).body.length = false) :
+    (hlim : ∀ l ∈ stack, ∀ L ∈ stack, overflows l (interventionResp L).body.length = false)
+    (hkeep : ¬ hasBuffer stack ∨ ∀ L ∈ stack, expectBody (interventionResp L).status (interventionResp L).headers = true) :
     ∃ outer L inner, stack = outer ++ L :: inner ∧ (∀ l ∈ outer, intervenes l req = false) ∧ intervenes L req = true
       ∧ serveStack stack h req = ⟨decorate outer (interventionResp L), 0, none, false, false, [], true⟩ := by
   obtain ⟨outer, L, inner, e, ho, hL⟩ := exists_outermost stack req hex
   refine ⟨outer, L, inner, e, ho, hL, ?_⟩
   subst e
   apply C20_decisive_at _ _ _ _ _ _ hL
-  intro l hl
-  exact ⟨ho l hl, hlim l (by simp [hl]) L (by simp)⟩
+  · rcases hkeep with hk | hk
+    · exact Or.inl (fun ⟨x, hx, e⟩ => hk ⟨x, by simp [hx], e⟩)
+    · exact Or.inr (hk L (by simp))
+  · intro l hl
+    exact ⟨ho l hl, hlim l (by simp [hl]) L (by simp)⟩
 
 /-- **Status table.**  The client status of a decided request is the documented status of the deciding layer; stream and
 trace never decide; a rate-limit refusal carries `X-Retry-In`. -/
 theorem C20_status_table (outer inner : List LayerCfg) (L : LayerCfg) (h : Req → Script) (req : Req)
     (hout : ∀ l ∈ outer, intervenes l req = false ∧ overflows l (interventionResp L).body.length = false)
-    (hL : intervenes L req = true) :
+    (hL : intervenes L req = true)
+    (hkeep : ¬ hasBuffer outer ∨ expectBody (interventionResp L).status (interventionResp L).headers = true) :
     (serveStack (outer ++ L :: inner) h req).resp.status = documentedStatus L
     ∧ L.kind ≠ Kind.stream ∧ L.kind ≠ Kind.trace
     ∧ (L.kind = Kind.ratelimit →
         ("X-Retry-In", goDuration L.periodMs) ∈ (serveStack (outer ++ L :: inner) h req).resp.headers) := by
-  rw [C20_decisive_at outer inner L h req hout hL]
+  rw [C20_decisive_at outer inner L h req hout hL hkeep]
   refine ⟨?_, ?_, ?_, ?_⟩
   · simp only [decorate_status]
     unfold interventionResp documentedStatus
@@ -159,7 +185,7 @@ theorem C20_response_limit (outer inner : List LayerCfg) (B : LayerCfg) (h : Req
     (hout : ∀ l ∈ outer, intervenes l req = false ∧ overflows l internalError.body.length = false)
     (hB : intervenes B req = false) (hov : overflows B (scriptResp (h req)).body.length = true)
     (hin : ∀ l ∈ inner, passes l req (h req)) (hj : (h req).hijack = false)
-    (hdom : (h req).info = [] ∨ (h req).status.isSome = true) :
+    (hdom : (h req).info = [] ∨ (h req).status.isSome = true) (hbody : bodyDomain inner (h req)) :
     (serveStack (outer ++ B :: inner) h req).invoked = 1
     ∧ (serveStack (outer ++ B :: inner) h req).resp = decorate outer internalError := by
   have hinner := serve_append inner [] h req (capsThrough (outer ++ [B]) Caps.real) (fun l hl => (hin l hl).1)
@@ -173,7 +199,7 @@ theorem C20_response_limit (outer inner : List LayerCfg) (B : LayerCfg) (h : Req
     · exact Or.inl h1
   have hone : attemptsThrough inner (scriptResp (h req)).status = 1 :=
     attemptsThrough_one _ _ (fun l hl => (hin l hl).2.2)
-  rw [hr, foldr_post_plain _ _ rfl (fun l hl => (hin l hl).2.1) hd] at hinner
+  rw [hr, foldr_post_plain _ _ rfl (fun l hl => (hin l hl).2.1) hd (bodyDomain_keep hbody)] at hinner
   simp only [hone, Nat.mul_one] at hinner
   have hB' : serve (B :: inner) h req (capsThrough outer Caps.real)
       = step B (serve inner h req (capsThrough (outer ++ [B]) Caps.real)) := by
@@ -185,7 +211,9 @@ theorem C20_response_limit (outer inner : List LayerCfg) (B : LayerCfg) (h : Req
     intro c f i e; simp [step, retryMul, retryable, post, decorate_body, hov]
   have hout1 : attemptsThrough outer internalError.status = 1 :=
     attemptsThrough_one _ _ (fun l _ => by simp [internalError, netErr])
-  rw [hpost, foldr_post_plain _ _ rfl (fun l hl => (hout l hl).2) (Or.inl rfl)]
+  have hk500 : expectBody internalError.status internalError.headers = true := by decide
+  rw [hpost, foldr_post_plain _ _ rfl (fun l hl => (hout l hl).2) (Or.inl rfl)
+    (Or.inr (Or.inr ⟨hk500, by intro hc; cases hc⟩))]
   exact ⟨by simp [hout1], rfl⟩
 
 /-- **A failed hijack stays a failed hijack.**  Behind a front whose writer cannot be hijacked (a recorder,
@@ -193,7 +221,7 @@ theorem C20_response_limit (outer inner : List LayerCfg) (B : LayerCfg) (h : Req
 relayed like any other: one invocation, status, headers (plus cookies) and body unchanged. -/
 theorem C20_failed_hijack_relayed (front : Caps) (hf : front.canHijack = false)
     (stack : List LayerCfg) (h : Req → Script) (req : Req)
-    (hp : ∀ l ∈ stack, passes l req (h req)) (hdom : infoDomain stack (h req)) :
+    (hp : ∀ l ∈ stack, passes l req (h req)) (hdom : infoDomain stack (h req)) (hbody : bodyDomain stack (h req)) :
     (serve stack h req front).invoked = 1 ∧ (serve stack h req front).hijacked = false
     ∧ (serve stack h req front).resp = decorate stack (scriptResp (h req)) := by
   have hi : ∀ l ∈ stack, intervenes l req = false := fun l hl => (hp l hl).1
@@ -212,8 +240,56 @@ theorem C20_failed_hijack_relayed (front : Caps) (hf : front.canHijack = false)
     · exact Or.inl h1
   have hone : attemptsThrough stack (scriptResp (h req)).status = 1 :=
     attemptsThrough_one _ _ (fun l hl => (hp l hl).2.2)
-  rw [hs, hr, foldr_post_plain _ _ rfl (fun l hl => (hp l hl).2.1) hd]
+  rw [hs, hr, foldr_post_plain _ _ rfl (fun l hl => (hp l hl).2.1) hd (bodyDomain_keep hbody)]
   exact ⟨by simp [hone], rfl, rfl⟩
+
+/-- the code `bufferWriter` holds when this handler returns: its final status, else its last 1xx, else the implicit 200 -/
+def scriptCode (s : Script) : Nat :=
+  match s.status with
+  | some c => c
+  | none => match s.info.getLast? with
+    | some i => i
+    | none => 200
+
+/-- **Which responses lose their body behind a Buffer** (documented Buffer behaviour: `expectBody`, gRPC support).  Exactly
+those whose recorded code is 1xx, 204 or 304, that carry `Content-Length: 0`, or a non-empty `Grpc-Status` other than "0" … -/
+theorem C20_expectBody_false_iff (c : Nat) (hs : List Header) :
+    expectBody c hs = false ↔
+      ((100 ≤ c ∧ c < 200) ∨ c = 204 ∨ c = 304 ∨ hget hs "Content-Length" = "0"
+        ∨ (hget hs "Grpc-Status" ≠ "" ∧ hget hs "Grpc-Status" ≠ "0")) := by
+  unfold expectBody
+  simp
+  grind
+
+/-- … and for those, and only those, a passing Buffer delivers an empty body instead of the handler's (status and headers are
+relayed as usual). -/
+theorem C20_buffer_drops_body_kinds (B : LayerCfg) (hB : B.kind = Kind.buffer) (h : Req → Script) (req : Req)
+    (hpass : intervenes B req = false) (hov : overflows B (scriptResp (h req)).body.length = false)
+    (hnr : (retryBuf B && netErr (scriptResp (h req)).status) = false) (hj : (h req).hijack = false) :
+    (serveStack [B] h req).resp.body
+      = if expectBody (scriptCode (h req)) (h req).headers then (scriptResp (h req)).body else [] := by
+  have hck : cookieOf B = [] := by simp [cookieOf, hB]
+  have hrt : retryable B (runHandler (h req) (wrapCaps B.kind Caps.real)) = false := by
+    have : (runHandler (h req) (wrapCaps B.kind Caps.real)).resp = scriptResp (h req) := by
+      simp [runHandler, hj]
+    unfold retryable
+    rw [this]
+    cases hb : retryBuf B <;> simp_all
+  simp only [serveStack, serve, hpass, retryMul, hrt]
+  simp only [runHandler, hj, Bool.false_and, Bool.false_eq_true, if_false, post, hov, decorate1, hck, List.nil_append]
+  unfold relayHeaderCalls bwCode scriptCode
+  simp only [hB]
+  cases hs : (h req).status <;> cases hi : (h req).info.getLast? <;> simp [scriptResp, hs] <;> split <;> simp_all
+
+/-- **The stateful retry loop is the stateless one.**  In a stack without rate limiters — the only layers in which a request
+leaves something behind — `serveSt` (which re-runs the inner stack in the state the previous attempt left) answers exactly
+like `serveStack` on the effective configuration, retries included, and leaves the effective configuration unchanged; so
+`C20_retry_documented` and `C20_transparent` apply to every request of a sequence. -/
+theorem C20_retry_stateful_link (stack : List LayerCfg) (st : List Nat) (h : Req → Script) (req : Req)
+    (hnr : ∀ l ∈ stack, l.kind ≠ Kind.ratelimit) :
+    (serveSt stack st h req false Caps.real).1 = Outcome.served (serveStack (effStack stack st) h req)
+    ∧ effStack stack (serveSt stack st h req false Caps.real).2 = effStack stack st :=
+  serveSt_noRate stack st h req Caps.real hnr
 
 /-- **Known gap in the code (1xx + implicit final status behind a buffer).**  `infoDomain` cannot be dropped from
 `C20_transparent`: a handler that calls `WriteHeader(103)` and then writes its body without a final `WriteHeader` loses its
@@ -257,7 +333,7 @@ the third is relayed), so the handler runs `3 ^ (number of retrying buffers)` ti
 relayed unchanged.  Every other status — 503 included — falls under `C20_transparent`: exactly one invocation. -/
 theorem C20_retry_documented (stack : List LayerCfg) (h : Req → Script) (req : Req)
     (hp : ∀ l ∈ stack, intervenes l req = false ∧ overflows l (scriptResp (h req)).body.length = false)
-    (hdom : infoDomain stack (h req)) (hj : (h req).hijack = false)
+    (hdom : infoDomain stack (h req)) (hbody : bodyDomain stack (h req)) (hj : (h req).hijack = false)
     (hst : netErr (scriptResp (h req)).status = true) :
     (serveStack stack h req).invoked = 3 ^ stack.countP retryBuf
     ∧ (serveStack stack h req).resp = decorate stack (scriptResp (h req)) := by
@@ -274,7 +350,7 @@ theorem C20_retry_documented (stack : List LayerCfg) (h : Req → Script) (req :
     · exact Or.inr (Or.inr h1)
     · exact Or.inr (Or.inl h1)
     · exact Or.inl h1
-  rw [hs, hr, foldr_post_plain _ _ rfl (fun l hl => (hp l hl).2) hd]
+  rw [hs, hr, foldr_post_plain _ _ rfl (fun l hl => (hp l hl).2) hd (bodyDomain_keep hbody)]
   exact ⟨by simp [attemptsThrough_pow _ _ hst], rfl⟩
 
 /-! ## Non-vacuity: depth-4 stacks -/
@@ -293,7 +369,15 @@ private def sDec : List LayerCfg :=
 
 /-- the hypotheses of `C20_transparent` hold on concrete depth-4 stacks (with and without a buffer) … -/
 example : (∀ l ∈ sPass, passes l ⟨7⟩ (h1 ⟨7⟩)) ∧ (h1 ⟨7⟩).status.isSome = true := by decide
-example : (∀ l ∈ sBuf, passes l ⟨16⟩ (h1 ⟨16⟩)) ∧ (h1 ⟨16⟩).status.isSome = true := by decide
+example : (∀ l ∈ sBuf, passes l ⟨16⟩ (h1 ⟨16⟩)) ∧ (h1 ⟨16⟩).status.isSome = true
+    ∧ expectBody (scriptResp (h1 ⟨16⟩)).status (h1 ⟨16⟩).headers = true := by decide
+/-- `bodyDomain` cannot be dropped: a 200 with `Grpc-Status: 5` keeps its body through trace but loses it behind a Buffer -/
+private def hGrpc : Req → Script := fun _ =>
+  ⟨some 200, [("Content-Type", "application/grpc"), ("Grpc-Status", "5")], [[7, 8]], 0, false, [], false⟩
+example : (serveStack [{ kind := .trace }] hGrpc ⟨0⟩).resp.body = [7, 8]
+    ∧ (serveStack [{ kind := .trace }, { kind := .buffer }] hGrpc ⟨0⟩).resp.body = []
+    ∧ (serveStack [{ kind := .trace }, { kind := .buffer }] hGrpc ⟨0⟩).resp.status = 200
+    ∧ (∀ l ∈ [({ kind := .trace } : LayerCfg), { kind := .buffer }], passes l ⟨0⟩ (hGrpc ⟨0⟩)) := by decide
 /-- … and the conclusions are the non-trivial ones: one invocation, cookie added, flush delivered / not under a buffer, hijack works -/
 example : (serveStack sPass h1 ⟨7⟩).invoked = 1 ∧ (serveStack sPass h1 ⟨7⟩).resp.status = 201
     ∧ (serveStack sPass h1 ⟨7⟩).resp.body = [1, 2, 3, 4, 5] ∧ (serveStack sPass h1 ⟨7⟩).flushed = true
